@@ -83,6 +83,8 @@ struct FnCfg {
     into_as: Option<String>, // R12
     slice_before: Option<String>, // R11
     slice_from: Option<String>,   // R11: statements before the anchor are dropped as well
+    /// R11: the fragment is taken from the body of the (loop / if) statement of the function body that starts with this text
+    slice_block: Option<String>,
     frag_name: Option<String>,    // R11: the kept statements become a function of their declared free variables
     frag_params: Option<String>,
     frag_ret: Option<String>,
@@ -920,6 +922,14 @@ impl<'r, 'a> V<'r, 'a> {
         let mut skipping = self.r.fc.slice_from.is_some() && self.r.body_block == Some(rng(b.span()));
         for (i, st) in b.stmts.iter().enumerate() {
             let (a, e) = rng(st.span());
+            if skipping {
+                // R11: statements before the fragment's first statement are not part of it (whatever their shape)
+                let stext0 = norm(self.r.text(st.span()));
+                if !stext0.starts_with(self.r.fc.slice_from.as_ref().unwrap().as_str()) {
+                    self.edits.push(Edit { start: a, end: e, text: String::new() });
+                    continue;
+                }
+            }
             if is_loop_body && i + 1 < b.stmts.len() {
                 if let Stmt::Expr(Expr::If(ife), _) = st {
                     if ife.else_branch.is_none() {
@@ -1958,6 +1968,7 @@ fn main() {
             into_as: it["into_as"].as_str().map(|s| s.to_string()),
             slice_before: it["slice_before"].as_str().map(|s| s.to_string()),
             slice_from: it["slice_from"].as_str().map(|s| s.to_string()),
+            slice_block: it["slice_block"].as_str().map(|s| s.to_string()),
             frag_name: it["frag_name"].as_str().map(|s| s.to_string()),
             frag_params: it["frag_params"].as_str().map(|s| s.to_string()),
             frag_ret: it["frag_ret"].as_str().map(|s| s.to_string()),
@@ -2108,11 +2119,39 @@ fn main() {
                                 die("eager accessor body is not a recognised pipeline");
                             }
                         } else {
-                            if matches!(&sig.output, ReturnType::Type(..)) && fc.slice_before.is_none() {
+                            // R11 (nested): the statements are taken from the body of a loop / if statement of the function body
+                            let mut b: &Block = b;
+                            if let Some(pref) = &fc.slice_block {
+                                let mut found_block: Option<&Block> = None;
+                                for st in &b.stmts {
+                                    let e = match st { Stmt::Expr(e, _) => e, _ => continue };
+                                    if !norm(&text[rng(e.span()).0..rng(e.span()).1]).starts_with(norm(pref).as_str()) { continue; }
+                                    found_block = match e {
+                                        Expr::ForLoop(f) => Some(&f.body),
+                                        Expr::While(w) => Some(&w.body),
+                                        Expr::Loop(l) => Some(&l.body),
+                                        Expr::If(i) => Some(&i.then_branch),
+                                        _ => None,
+                                    };
+                                    if let (Some(ib), false) = (found_block, matches!(e, Expr::If(_))) {
+                                        // the statements of a loop body keep the loop-body reading of `continue` (R15)
+                                        r.loop_bodies.insert(rng(ib.span()));
+                                    }
+                                    break;
+                                }
+                                match found_block {
+                                    Some(ib) => { b = ib; r.rule("R11:fragment-of-nested-block"); }
+                                    None => {
+                                        eprintln!("vx: lost anchor: no loop/if statement starting with `{}` in {}", pref, sel);
+                                        std::process::exit(2);
+                                    }
+                                }
+                            }
+                            if matches!(&sig.output, ReturnType::Type(..)) && fc.slice_before.is_none() && fc.slice_block.is_none() {
                                 r.bind_tail = Some(rng(b.span()));
                             }
                             r.body_block = Some(rng(b.span()));
-                            r.unit_fn = matches!(&sig.output, ReturnType::Default);
+                            r.unit_fn = matches!(&sig.output, ReturnType::Default) || fc.slice_block.is_some();
                             let inner = r.render_block_inner(b);
                             if r.tail_bound {
                                 format!("{{ /*@BEGIN@*/{} }}", inner)
